@@ -18,6 +18,8 @@ func main() {
 		props.C18(c)
 	case "C12":
 		props.C12(c)
+	case "C08":
+		props.C08(c)
 	default:
 		fmt.Fprintln(os.Stderr, "worker: unknown property", c.Prop)
 		os.Exit(2)
